@@ -47,6 +47,10 @@ def run(ctx, sess, P, G, T, reach, roots, exc):
     ctx.rule('C10.23', 'scratch capacity agrees with its fill bound: a buffer from jls_core_f64_buf_alloc(N) is handed to a filler only with the count N, and is appended to only through a counter that is reset (together with a counter advanced at least as often) when that counter reaches N')
     ctx.rule('C10.24', 'the forward header scan ends: traced for a grid of (start position, file size) pairs with candidates that never match, jls_raw_chunk_scan returns, and it has examined exactly the 8-byte aligned offsets from the start to size - 32 in order (none skipped, none twice)')
     ctx.rule('C10.25', 'defined conversions: a floating-point quotient whose value (directly, through locals or through round/floor/ceil) is converted to an integer has a divisor that is a non-zero constant or was compared with zero on every path from its definition to the division')
+    ctx.rule('C10.27', 'allocation sizes keep their width: the size handed to malloc / calloc / realloc / jls_buf_realloc does not come (directly, through locals, or through the return value of a helper of the unit) from a count x size product that was cast down to 32 bits')
+    ctx.rule('C10.26', 'the realign of a sub-byte overlap reads exactly the caller bytes that hold new samples (shared with C09.9): one byte more is a read outside the buffer the caller provided')
+    ctx.rule('C10.28', 'no stale pointer into the read buffer: a local pointer taken from <core>.buf->start is not used after a call that can reallocate that buffer (the chunk read and everything that reaches it) unless it is taken again first')
+    ctx.rule('C10.29', 'conversion reads what the chunk holds: where the samples of the chunk in the read buffer are converted (jls_dt_buffer_to_f64 with the payload as source), the count derives from the entry count in that chunk\'s header (clamped to the block size the scratch was allocated for), not from the definition alone')
     ctx.rule('C10.12', 'no read of uninitialised instance memory: every field of a malloc\'ed instance that is read anywhere is initialised before the instance is published')
     r4(ctx, P)
     r5(ctx, P, reach)
@@ -71,6 +75,12 @@ def run(ctx, sess, P, G, T, reach, roots, exc):
     c10c.r23(ctx, P)
     c10c.r24(ctx, P)
     c10c.r25(ctx, P)
+    c10c.r27(ctx, P)
+    c10c.r28(ctx, P)
+    c10c.r29(ctx, P)
+    from .common import relay
+    from . import c09 as _src_c09
+    relay(ctx, sess, _src_c09.run, {'C09.9': 'C10.26'}, minimum=1)
 
 
 def r4(ctx, P):
